@@ -346,7 +346,14 @@ func prop(c Case, st *caseStats) (*vlib.Failure, Case) {
 	if f != nil {
 		return f, Case{Corpus: c.Corpus}
 	}
-	defer e.o.cleanup()
+	hung := false
+	defer func() {
+		// after a hang the search goroutine is still running inside the index: closing the reader
+		// (unmapping its files) under it would turn the reported hang into a crash of the process
+		if !hung {
+			e.o.cleanup()
+		}
+	}()
 	st.segments, st.pending, st.live = e.o.segments, e.o.pending, len(e.m.docs)
 	st.q = make([]qstat, len(c.Queries))
 	for qi, q := range c.Queries {
@@ -358,6 +365,8 @@ func prop(c Case, st *caseStats) (*vlib.Failure, Case) {
 			continue
 		}
 		if strings.HasPrefix(f.Key, "hang@") {
+			hung = true
+			f.Msg += "; query " + q.String()
 			return f, Case{Corpus: c.Corpus, Queries: []*Q{q}}
 		}
 		// alone, on a fresh reader?  the smallest failing sub-query alone?
